@@ -64,7 +64,11 @@ def _format_value(val):
             return "NaN"
         if np.isinf(val):
             return "Inf" if val > 0 else "-Inf"
-        return _getformat(val) % val
+        text = _getformat(val) % val
+        if text.lstrip('-').isdigit():
+            # 16 significant digits without a fraction: keep the token a float
+            text += '.0'
+        return text
     return str(val)
 
 
